@@ -185,6 +185,16 @@ func (c *vSrvCarrier) framesFor(id int64) []*tunnelpb.ServerToClient {
 	return out
 }
 
+func vWithoutStream(frames []*tunnelpb.ServerToClient, id int64) []*tunnelpb.ServerToClient {
+	var out []*tunnelpb.ServerToClient
+	for _, f := range frames {
+		if f.StreamId != id {
+			out = append(out, f)
+		}
+	}
+	return out
+}
+
 func vCloseCode(f *tunnelpb.ServerToClient) (codes.Code, bool) {
 	cs, ok := f.Frame.(*tunnelpb.ServerToClient_CloseStream)
 	if !ok {
@@ -304,9 +314,14 @@ func verifH_SrvNewStream() {
 	// what a client may send next for the same id, before it hears back
 	cont := 0
 	if focus == 1 || focus == 3 {
-		cont = verifChoice("continuation", 4)
+		cont = verifChoice("continuation", 5)
 	}
 	switch cont {
+	case 4:
+		// another client goroutine starts the next RPC right behind it (an unknown method: rejected)
+		verifAssume(fid < 0x7fffffffffffffff)
+		car.script = append(car.script, &tunnelpb.ClientToServer{StreamId: fid + 1, Frame: &tunnelpb.ClientToServer_NewStream{
+			NewStream: &tunnelpb.NewStream{MethodName: "no/such", ProtocolRevision: tunnelpb.ProtocolRevision_REVISION_ONE}}})
 	case 1:
 		car.script = append(car.script, &tunnelpb.ClientToServer{StreamId: fid, Frame: &tunnelpb.ClientToServer_RequestMessage{
 			RequestMessage: &tunnelpb.MessageData{Size: 0}}})
@@ -340,7 +355,15 @@ func verifH_SrvNewStream() {
 	}
 	// a fresh id: whatever happens to the RPC, the tunnel stays up and the id is spent
 	verifAssert(err == nil, "C03+C09+C10.stream-level-outcome-keeps-tunnel")
-	verifAssert(svr.lastSeen == fid, "C03+C08+C10.id-recorded")
+	if cont == 4 {
+		verifCover("two-new-streams")
+		verifAssert(svr.lastSeen == fid+1, "C08.second-id-recorded")
+		next := car.framesFor(fid + 1)
+		verifAssert(len(next) == 1, "C08+C13.each-rejected-rpc-gets-its-own-close-frame")
+		car.sent = vWithoutStream(car.sent, fid+1)
+	} else {
+		verifAssert(svr.lastSeen == fid, "C03+C08+C10.id-recorded")
+	}
 	_, still := svr.streams[fid]
 	verifAssert(!still, "C14.no-table-entry-after-finish")
 	verifAssert(verifLiveGoroutines() == 0, "C14.no-goroutine-left")
